@@ -1,13 +1,18 @@
 #!/bin/sh
-# usage: tools/seedtest.sh <patch.diff> <property-id> [quick|thorough]   -- apply seeded change, run check, revert
+# usage: tools/seedtest.sh <patch.diff> <property-id> [quick|thorough]
+# Applies a seeded change in a scratch worktree of /repo (never /repo itself), runs the check against it
+# with VERIF_REPO, removes the worktree.  The evidence file of the property is preserved.
 p=$(readlink -f "$1"); id=$2; tier=${3:-quick}
-cd /repo || exit 2
-if ! git diff --quiet; then echo "repo dirty"; exit 2; fi
-git apply "$p" || { echo "patch does not apply"; exit 2; }
-cd /verif && ./check $id $tier > /var/tmp/integ/seed-$id.log 2>&1; rc=$?
-git -C /repo checkout -- .
+wt=/var/tmp/seedwt-$id-$$
+mkdir -p /var/tmp/integ
+git -C /repo worktree add -q --detach $wt HEAD || exit 2
+( cd $wt && git apply "$p" ) || { echo "patch does not apply"; git -C /repo worktree remove --force $wt; exit 2; }
+cd /verif
+[ -f evidence/$id.json ] && cp evidence/$id.json /var/tmp/integ/evsave-$id-$$.json
+VERIF_REPO=$wt ./check $id $tier > /var/tmp/integ/seed-$id.log 2>&1; rc=$?
+[ -f /var/tmp/integ/evsave-$id-$$.json ] && mv /var/tmp/integ/evsave-$id-$$.json evidence/$id.json
+git -C /repo worktree remove --force $wt
 grep -c "^VIOLATION" /var/tmp/integ/seed-$id.log | sed "s/^/violation lines: /"
 grep "clause=" /var/tmp/integ/seed-$id.log | sort | uniq -c | head -8
-tail -1 /var/tmp/integ/seed-$id.log
+tail -n 1 /var/tmp/integ/seed-$id.log
 echo "exit=$rc"
-git -C /verif checkout -- evidence 2>/dev/null
